@@ -372,7 +372,7 @@ def hole_after_seq(t, anchor):
         if it[0] == 'tok':
             prefix = (prefix + ' ' + it[1]).strip()
             if (' ' + prefix).endswith(' ' + anchor) and i + 1 < len(items) and items[i + 1][0] == 'hole':
-                return items[i + 1][2]
+                return E.plain_idents(items[i + 1][2])
         else:
             prefix = ''
     return None
